@@ -1,8 +1,74 @@
 (** CmdC20.v — command table of the model runner for property C20
     (commands 2000 .. 2099 of [run_cmd]; local number = c mod 100). *)
-From JSL Require Import Base.
+From JSL Require Import Base Instance Dstate Filters World Feasible Gantt GanttSpec.
+
+(** 1: [I; rows; requested xlim (option); number_of_x_ticks] -> the chart *)
+Definition cmd_chart (v : val) : val :=
+  let I := dec_instance (vnth v 0) in
+  let S := dec_sched (vnth v 1) in
+  enc_chart (plot_gantt_chart I S (asOpt asZ (vnth v 2)) (asZ (vnth v 3))).
+
+(** 2: the property oracle on what the IMPLEMENTATION put on the axes:
+    [I; rows; requested xlim; [bars; legend; [ylo; yhi]; yticks; xlim; xticks]]
+    -> [drawable; bars; legend; y axis; x limit; x ticks] *)
+Definition cmd_chart_oracle (v : val) : val :=
+  let I := dec_instance (vnth v 0) in
+  let S := dec_sched (vnth v 1) in
+  let req := asOpt asZ (vnth v 2) in
+  let o := vnth v 3 in
+  let B := asLof dec_bar (vnth o 0) in
+  let L := dec_legend (vnth o 1) in
+  let yl := (asZ (vnth (vnth o 2) 0), asZ (vnth (vnth o 2) 1)) in
+  let yt := asLof asZ (vnth o 3) in
+  let xl := asZ (vnth o 4) in
+  let xt := asLof asZ (vnth o 5) in
+  VL (map vbool [drawableb I S; chart_barsb I S B; legend_okb S L; yaxis_okb (length S) yl yt;
+                 xlim_okb I S req xl; xaxis_okb xl xt]).
+
+Definition enc_frame (k : nat) (f : option frame) : val :=
+  match f with
+  | Some f => VL [vnat k; enc_sched (f_sched f); VI (f_xlim f)]
+  | None => VL [vnat k]
+  end.
+
+(** 3: [I; history; ks] -> [error code (0 = none); number of files written;
+    for k in ks: [k; rows; xlim] of the file named [frame_name k]] *)
+Definition cmd_frames (v : val) : val :=
+  let I := dec_instance (vnth v 0) in
+  let h := asLof dec_sop (vnth v 1) in
+  let ks := asLof asN (vnth v 2) in
+  let '(d, e) := create_gantt_chart_frames I h in
+  VL [VI (match e with Some x => exn_code x | None => 0 end); vnat (length d);
+      VL (map (fun k => enc_frame k (dir_lookup d (frame_name k))) ks)].
+
+(** 4: the specification of the same: [I; history; ks] -> for k in ks:
+    [k; rows of history[:k]; makespan of the whole history] *)
+Definition cmd_frames_spec (v : val) : val :=
+  let I := dec_instance (vnth v 0) in
+  let h := asLof dec_sop (vnth v 1) in
+  let ks := asLof asN (vnth v 2) in
+  let mk := makespan I (sched_of_history I h) in
+  VL (map (fun k => enc_frame k (Some (mkframe (sched_of_history I (firstn k h)) mk))) ks).
+
+(** 5: ks -> file names *)
+Definition cmd_names (v : val) : val := vlist (fun k => enc_name (frame_name (asN k))) (asL v).
+
+(** 6: directory listing -> read order of the repaired [_load_images] *)
+Definition cmd_load_order (v : val) : val :=
+  vopt (vlist enc_name) (load_order (asLof dec_name v)).
+
+(** 7: directory listing -> read order of the unrepaired [_load_images] *)
+Definition cmd_load_order_str (v : val) : val :=
+  vlist enc_name (load_order_str (asLof dec_name v)).
 
 Definition run_c20 (c : Z) (v : val) : val :=
   match c with
+  | 1 => cmd_chart v
+  | 2 => cmd_chart_oracle v
+  | 3 => cmd_frames v
+  | 4 => cmd_frames_spec v
+  | 5 => cmd_names v
+  | 6 => cmd_load_order v
+  | 7 => cmd_load_order_str v
   | _ => VL []
   end.
